@@ -336,103 +336,114 @@ func TestC03Validator(t *testing.T) {
 			rep.Stat("skipped_non_go_functions", 1)
 			continue
 		}
-		p := phs[fi%2]
-		funcLen := int(f.End - f.Entry)
-		O := img.Pristine(f.Entry, min(funcLen+16, int(hiOf(img)-f.Entry)))
-		if O == nil {
-			continue
+		// a second trampoline for the same function at the other placeholder (what was computed for the first one is of
+		// no use at another address): every third function in the quick tier, every function otherwise
+		passes := 1
+		if fi%3 == 0 || vmon.EnvInt("VERIF_C03_BOTH", 0) == 1 {
+			passes = 2
 		}
-		rep.Journal(map[string]interface{}{"part": "validator", "func": f.Name, "entry": f.Entry, "placeholder": p.name})
-		var perr error
-		func() {
-			defer func() {
-				if r := recover(); r != nil {
-					perr = fmt.Errorf("panic: %v", r)
-				}
+		for pass := 0; pass < passes; pass++ {
+			if pass == 1 {
+				rep.Stat("second_trampolines_at_the_other_placeholder", 1)
+			}
+			p := phs[(fi+pass)%2]
+			funcLen := int(f.End - f.Entry)
+			O := img.Pristine(f.Entry, min(funcLen+16, int(hiOf(img)-f.Entry)))
+			if O == nil {
+				continue
+			}
+			rep.Journal(map[string]interface{}{"part": "validator", "func": f.Name, "entry": f.Entry, "placeholder": p.name})
+			var perr error
+			func() {
+				defer func() {
+					if r := recover(); r != nil {
+						perr = fmt.Errorf("panic: %v", r)
+					}
+				}()
+				_, perr = PtrTrampoline(f.Entry, c03Repl, p.fn)
 			}()
-			_, perr = PtrTrampoline(f.Entry, c03Repl, p.fn)
-		}()
-		if !patchesLock.TryLock() {
-			rep.Violate("C03/lock-left-held", fmt.Sprintf("%s: patch lock still held after PtrTrampoline returned (%v)", f.Name, perr), nil)
-			patchesLock.Unlock()
-		} else {
-			delete(patches, f.Entry)
-			patchesLock.Unlock()
-		}
-		rep.Eval(1)
-		W := vmon.ReadMem(p.addr, p.size)
-		side := "ph-after-fn"
-		if p.addr < f.Entry {
-			side = "ph-before-fn"
-		}
-		// target untouched in any case (nothing was applied), nothing outside the placeholder touched
-		if d := img.DiffOutside([]vmon.Range{{Start: p.addr, End: p.addr + uintptr(p.size)}}); len(d) != 0 {
-			rep.Violate("C03/bytes-outside-placeholder-changed", fmt.Sprintf("%s: %v", f.Name, d), map[string]interface{}{"func": f.Name})
-			for _, r := range d {
-				memory.WriteTo(r.Start, img.Pristine(r.Start, int(r.End-r.Start)))
-			}
-		}
-		if perr != nil {
-			reason := perr.Error()
-			switch {
-			case strings.Contains(reason, "jump to inside"):
-				reason = "jump-into-first-13-bytes"
-			case strings.Contains(reason, "address overflow"):
-				reason = "short-branch-not-widenable"
-			case strings.Contains(reason, "bigger than"):
-				reason = "too-short-or-placeholder-too-small"
-			case strings.Contains(reason, "already patched"):
-				reason = "starts-with-nop(already-patched heuristic)"
-			default:
-				if len(reason) > 60 {
-					reason = reason[:60]
-				}
-			}
-			refusals[reason]++
-			if !bytes.Equal(W, p.p0) {
-				rep.Violate("C03/refused-but-placeholder-modified", fmt.Sprintf("%s refused (%s) but the placeholder was written", f.Name, reason), map[string]interface{}{"func": f.Name})
-				memory.WriteTo(p.addr, p.p0)
-			}
-			rep.Class("refused/" + reason)
-			continue
-		}
-		res := c03Validate(f.Entry, O, funcLen, p.addr, W, p.p0)
-		if res.why != "" {
-			if res.key == "C03/no-oracle" {
-				rep.Stat("no_oracle", 1)
+			if !patchesLock.TryLock() {
+				rep.Violate("C03/lock-left-held", fmt.Sprintf("%s: patch lock still held after PtrTrampoline returned (%v)", f.Name, perr), nil)
+				patchesLock.Unlock()
 			} else {
-				rep.Violate(res.key, fmt.Sprintf("%s: %s", f.Name, res.why), map[string]interface{}{"func": f.Name, "entry": fmt.Sprintf("%#x", f.Entry), "placeholder": p.name,
-					"original": fmt.Sprintf("% x", O[:min(40, len(O))]), "written": fmt.Sprintf("% x", W[:min(48, len(W))])})
+				delete(patches, f.Entry)
+				patchesLock.Unlock()
 			}
-		} else {
-			rep.Stat("trampolines_valid", 1)
-			rep.Stat("instructions_validated", int64(res.insts))
-			if _, ok := shapes[res.shape]; !ok {
-				shapes[res.shape] = struct{}{}
-				rep.Class("shape/" + res.shape)
+			rep.Eval(1)
+			W := vmon.ReadMem(p.addr, p.size)
+			side := "ph-after-fn"
+			if p.addr < f.Entry {
+				side = "ph-before-fn"
 			}
-			for _, pc := range res.pcs {
-				w := ""
-				if pc.widened {
-					w = "/widened"
+			// target untouched in any case (nothing was applied), nothing outside the placeholder touched
+			if d := img.DiffOutside([]vmon.Range{{Start: p.addr, End: p.addr + uintptr(p.size)}}); len(d) != 0 {
+				rep.Violate("C03/bytes-outside-placeholder-changed", fmt.Sprintf("%s: %v", f.Name, d), map[string]interface{}{"func": f.Name})
+				for _, r := range d {
+					memory.WriteTo(r.Start, img.Pristine(r.Start, int(r.End-r.Start)))
 				}
-				in := "/external"
-				if pc.tgtO >= f.Entry && pc.tgtO < f.Entry+uintptr(res.copied) {
-					in = "/internal"
+			}
+			if perr != nil {
+				reason := perr.Error()
+				switch {
+				case strings.Contains(reason, "jump to inside"):
+					reason = "jump-into-first-13-bytes"
+				case strings.Contains(reason, "address overflow"):
+					reason = "short-branch-not-widenable"
+				case strings.Contains(reason, "bigger than"):
+					reason = "too-short-or-placeholder-too-small"
+				case strings.Contains(reason, "already patched"):
+					reason = "starts-with-nop(already-patched heuristic)"
+				default:
+					if len(reason) > 60 {
+						reason = reason[:60]
+					}
 				}
-				rep.Stat("pcrel:"+pc.kind+w+in, 1)
+				refusals[reason]++
+				if !bytes.Equal(W, p.p0) {
+					rep.Violate("C03/refused-but-placeholder-modified", fmt.Sprintf("%s refused (%s) but the placeholder was written", f.Name, reason), map[string]interface{}{"func": f.Name})
+					memory.WriteTo(p.addr, p.p0)
+				}
+				rep.Class("refused/" + reason)
+				continue
 			}
-			if c03Morestack(f.Entry, O, funcs) {
-				rep.Stat("trampolines_with_morestack_reentry_precondition", 1)
+			res := c03Validate(f.Entry, O, funcLen, p.addr, W, p.p0)
+			if res.why != "" {
+				if res.key == "C03/no-oracle" {
+					rep.Stat("no_oracle", 1)
+				} else {
+					rep.Violate(res.key, fmt.Sprintf("%s: %s", f.Name, res.why), map[string]interface{}{"func": f.Name, "entry": fmt.Sprintf("%#x", f.Entry), "placeholder": p.name,
+						"original": fmt.Sprintf("% x", O[:min(40, len(O))]), "written": fmt.Sprintf("% x", W[:min(48, len(W))])})
+				}
+			} else {
+				rep.Stat("trampolines_valid", 1)
+				rep.Stat("instructions_validated", int64(res.insts))
+				if _, ok := shapes[res.shape]; !ok {
+					shapes[res.shape] = struct{}{}
+					rep.Class("shape/" + res.shape)
+				}
+				for _, pc := range res.pcs {
+					w := ""
+					if pc.widened {
+						w = "/widened"
+					}
+					in := "/external"
+					if pc.tgtO >= f.Entry && pc.tgtO < f.Entry+uintptr(res.copied) {
+						in = "/internal"
+					}
+					rep.Stat("pcrel:"+pc.kind+w+in, 1)
+				}
+				if c03Morestack(f.Entry, O, funcs) {
+					rep.Stat("trampolines_with_morestack_reentry_precondition", 1)
+				}
+				rep.Stat("valid:"+side, 1)
+				if sampleDone < 3 && len(res.pcs) > 0 {
+					sampleDone++
+					rep.Sample(map[string]interface{}{"func": f.Name, "placeholder": p.name, "copied_bytes": res.copied, "written_bytes": res.written, "prefix": res.shape,
+						"original": fmt.Sprintf("% x", O[:res.copied]), "trampoline": fmt.Sprintf("% x", W[:res.written])})
+				}
 			}
-			rep.Stat("valid:"+side, 1)
-			if sampleDone < 3 && len(res.pcs) > 0 {
-				sampleDone++
-				rep.Sample(map[string]interface{}{"func": f.Name, "placeholder": p.name, "copied_bytes": res.copied, "written_bytes": res.written, "prefix": res.shape,
-					"original": fmt.Sprintf("% x", O[:res.copied]), "trampoline": fmt.Sprintf("% x", W[:res.written])})
-			}
+			memory.WriteTo(p.addr, p.p0)
 		}
-		memory.WriteTo(p.addr, p.p0)
 	}
 	for k, v := range refusals {
 		rep.Stat("refused:"+k, int64(v))
